@@ -885,6 +885,10 @@ func init() {
 		Run: runLifecycle(lcParams{focus: "C06", crashes: true, lifeCrashes: true, exceed: true, children: true}),
 		Doc: base + "one actor driven beyond MaxRestarts (first batch / replay of the restart buffer / Started); oracle: restarts == budget, exactly one ActorMaxRestartsExceededEvent, unregistered, children stopped and unregistered, later sends dead-letter, no delivery after Stopped, process alive",
 		Faults: []string{"actor-crash-in-Initialized", "actor-crash-in-Started", "actor-crash-in-Receive", "restart-budget-exceeded"}})
+	core.Register(&core.Profile{Property: "C06", Name: "budget-internal-error", Weight: 1, Cfg: cfgEngine,
+		Run: runLifecycle(lcParams{focus: "C06", crashes: true, lifeCrashes: true, exceed: true, internal: true}),
+		Doc: base + "as 'budget', with restarts caused by *actor.InternalError mixed in at any point (they do not count, and they must not disturb the count: the budget-exhausting ordinary crash still ends the actor)",
+		Faults: []string{"actor-crash-InternalError", "actor-crash-in-Initialized", "actor-crash-in-Started", "actor-crash-in-Receive", "restart-budget-exceeded"}})
 	core.Register(&core.Profile{Property: "C06", Name: "budget-with-poison", Weight: 2, Cfg: cfgEngine,
 		Run: runLifecycle(lcParams{focus: "C06", crashes: true, lifeCrashes: true, exceed: true, stops: true}),
 		Doc: base + "as 'budget', with Stop/Poison callers: the budget-exhausting crash may happen while the batch behind a poison pill is drained or on a message replayed from the restart buffer next to a pill; oracle: the clauses of 'budget' that hold whether or not a stop is in progress, and the process survives",
